@@ -187,7 +187,8 @@ def r2b_loop_carried(ctx: Context, v: CalibrateView) -> None:
     for nm, defs in sorted(assigned.items()):
         # a use of nm reachable from the start of an iteration without passing one of its in-loop definitions
         uses = [n for n in v.loop_nodes if n.ast is not None and n not in defs and any(isinstance(x, ast.Name) and x.id == nm and isinstance(x.ctx, ast.Load) for x in ast.walk(n.ast))]
-        aug = [n for n in defs if isinstance(n.ast, ast.AugAssign)]
+        aug = [n for n in defs if isinstance(n.ast, ast.AugAssign) or (isinstance(n.ast, (ast.Assign, ast.AnnAssign)) and n.ast.value is not None
+                                                                         and any(isinstance(x, ast.Name) and x.id == nm and isinstance(x.ctx, ast.Load) for x in ast.walk(n.ast.value)))]
         for u in [*uses, *aug]:
             if u is body_start and u in aug:
                 carried.append((nm, u, [u]))
